@@ -28,6 +28,11 @@ func (b *sb) setbal(p, s int, amt int64) *sb {
 	b.sc.ops = append(b.sc.ops, op{kind: opBal, pk: payerKey{p, s}, amt: amt})
 	return b
 }
+func (b *sb) height(h uint32) *sb { b.sc.ops = append(b.sc.ops, op{kind: opHeight, h: h}); return b }
+func (b *sb) threshold(h uint32) *sb {
+	b.sc.ops = append(b.sc.ops, op{kind: opThreshold, h: h})
+	return b
+}
 func (b *sb) stale(fpb int64, drops ...int) *sb {
 	b.sc.ops = append(b.sc.ops, op{kind: opStale, fpb: fpb, drops: drops})
 	return b
@@ -158,6 +163,21 @@ func corpusScenarios() []*scenario {
 		l := b.tx(0, 50, []int{4, 2}, []int{unknownBase}, -1, false) // full pool, lowest priority: oom
 		b.bal(2, 0, 1000).bal(3, 0, 1000).bal(4, 0, 1000)
 		b.add(x, o1, n, y, l).verify(n).remove(o1).add(n)
+		res = append(res, b.sc)
+	}
+	{
+		// 10: resend bookkeeping. Threshold 1: a kept transaction that is due for rebroadcast at this
+		// block must still be registered in the Conflicts index: the transaction it names cannot join it.
+		b := newSB("resend-keeps-conflicts", 4)
+		h := b.tx(0, 100, []int{2}, nil, -1, false)
+		a := b.tx(0, 300, []int{3, 2}, []int{h}, -1, false) // names h, signed by h's sender
+		h2 := b.tx(0, 100, []int{4}, nil, -1, false)
+		a2 := b.tx(0, 300, []int{3}, []int{h2}, -1, false) // names h2, not signed by its sender
+		c := b.tx(0, 200, []int{4}, nil, -1, false)
+		b.bal(2, 0, 1000).bal(3, 0, 1000).bal(4, 0, 1000)
+		b.threshold(1).height(10).add(a, a2).height(11).stale(0).add(h, h2).
+			height(12).stale(0).add(h).add(c).height(13).stale(0).height(14).stale(0).add(a2).
+			threshold(3).height(17).stale(0).threshold(0).height(18).stale(0)
 		res = append(res, b.sc)
 	}
 	return res
